@@ -4,7 +4,7 @@ From Coq Require Import String List NArith ZArith Bool.
 From J5V.lib Require Import Outcome Json JsonPrint Base64 Civil.
 From J5V.model Require Import CodecTypes CodecEnc CodecEncSpec.
 From J5V.gen Require ReadmeGen EncSwitchGen.
-From J5V.proofs Require Import CodecEncProofs.
+From J5V.proofs Require Import CodecEncProofs CodecEncLex.
 Import ListNotations.
 Local Open Scope N_scope.
 
@@ -62,6 +62,14 @@ Proof.
   exists J. split; [apply parse_print; exact Hw|exact Hs].
 Qed.
 Print Assumptions C08_scalar_wellformed.
+
+(* observe_at of the property: "re-read with a strict JSON tokenizer that keeps number/string
+   distinction" — the decoder family's model of encoding/json's Decoder.Token (lib/Json.v lex, tied
+   to the Go tokenizer by that family's CLex stream) reads the compact print of a well-formed tree
+   as exactly the tokens of that tree, nothing left over *)
+Theorem C08_tokenizer_reads_output : forall J, wfb J = true -> lex (print J) = (tokens_of J, false).
+Proof. exact lex_print. Qed.
+Print Assumptions C08_tokenizer_reads_output.
 
 (* the tie to the normative text and to the Go switches (regenerated on every run) *)
 Theorem C08_readme_table :
